@@ -6,6 +6,15 @@ import os
 VERIF = os.path.dirname(os.path.dirname(os.path.abspath(__file__)))
 
 CHECKS = {
+    "C01": dict(level="exploration", design="4 C01",
+                text="Generated libraries inside the stated domain are saved with write_gds, reloaded (1-3 cycles) and compared "
+                     "with a Python model of the expected reloaded library: multiset matching per cell and element kind, "
+                     "every coordinate on the grid and within half a grid unit of the original, repetitions/non-simple paths/"
+                     "over-limit polygons re-loaded as plain elements covering the same region (exact winding samples), later "
+                     "cycles idempotent. Sampled exploration with shrinking.",
+                note="Trusted: pbt/gdsmodel.py, pbt/geomkit.py. Centre lines/outlines of paths are taken from gdstk (transport "
+                     "only; C07/C08 judge them). Arrays with off-grid lattices are compared with 1 grid unit tolerance.",
+                technique="property-based testing (Hypothesis) of a save/load round trip against a reference model"),
     "C05": dict(level="exploration", design="4 C05",
                 text="Generated pairs of polygon groups (simple polygons of six families, snapped to force coincidences, sizes "
                      "64..2^45 grid units, optional feedback of earlier outputs) through all four operations; oracle = exact "
@@ -24,6 +33,25 @@ CHECKS = {
                 note="Trusted: the 20-line reference enumeration in pbt/repgen.py. Zero counts denote the empty set, an empty "
                      "explicit list denotes {0} (DESIGN 4 C11).",
                 technique="property-based testing (Hypothesis) against a reference enumeration"),
+    "C12": dict(level="exploration", design="4 C12",
+                text="Generated simple polygons (combs up to 10^4 vertices, spirals, stars, slivers, collinear/repeated "
+                     "vertices) x vertex limits x precisions through Polygon::fracture, and x sorted cut lists through "
+                     "slice(): vertex bound, tag/repetition/independent properties on every piece, exact-winding sample "
+                     "oracle (covered by exactly one piece iff inside; bin i = polygon in strip i), area sum, termination "
+                     "(watchdog).",
+                note="Trusted: geomkit exact predicates; 2-grid-unit guard band; large polygons use a deterministic subset of "
+                     "sample candidates.",
+                technique="property-based testing (Hypothesis) with an exact point-membership partition oracle"),
+    "C13": dict(level="exploration", design="4 C13",
+                text="Generated polygon groups and polyomino regions (three decompositions each) x distances of either sign x "
+                     "join styles x tolerances x scalings x union settings through offset(); oracle = my own signed distance "
+                     "(exact winding + point-segment distance, exact region boundary for polyominoes) with a 2-grid-unit band "
+                     "and the join-dependent reach; metamorphic: the decompositions of one region classify every decidable "
+                     "sample identically under use_union.",
+                note="Trusted: geomkit. Domain conditions (DESIGN 4 C13): miter limit >= 2; polygons without sub-grid spikes; "
+                     "use_union=false with d<0 only for polygons farther apart than 2|d|; round joins judged with Clipper's "
+                     "rounded arc step count (apothem of a 1.5-step chord).",
+                technique="property-based testing (Hypothesis) with a signed-distance oracle and a metamorphic decomposition relation"),
     "C14": dict(level="exploration", design="4 C14",
                 text="Exhaustive small-grid enumeration (every vertex list up to length 4/5 on a 4x4 grid x 121 query "
                      "points) plus Hypothesis-generated polygons/point sets against an exact integer winding-number "
